@@ -49,7 +49,7 @@ type LoopSpec struct {
 	Props   []string
 }
 
-var atRe = regexp.MustCompile(`^"((?:[^"\\]|\\.)*)"\s+assert\s+(.*)$`)
+var atRe = regexp.MustCompile(`^"((?:[^"\\]|\\.)*)"\s+(assert|assume)\s+(.*)$`)
 
 // PointSpec is an assertion attached to the first statement whose source line
 // contains Pattern (the pattern must occur on exactly one line of the function).
@@ -66,6 +66,7 @@ type PointSpec struct {
 	SrcFile string
 	Pos     token.Pos
 	ready   bool
+	Assume  bool // the fact is assumed, not proved (listed in the evidence)
 }
 
 type Contract struct {
@@ -543,7 +544,7 @@ func buildStub(rc *rawContract, file string) (*Contract, string, error) {
 			if m == nil {
 				return nil, "", fmt.Errorf("%s:%d: bad at clause (want: at \"source text\" assert <expr>)", file, l.line)
 			}
-			ps := &PointSpec{Pattern: m[1], Text: strings.TrimSpace(m[2]), Line: l.line, File: file, Index: len(ct.Points)}
+			ps := &PointSpec{Pattern: m[1], Text: strings.TrimSpace(m[3]), Line: l.line, File: file, Index: len(ct.Points), Assume: m[2] == "assume"}
 			if strings.HasPrefix(ps.Text, "@") {
 				sp := strings.SplitN(ps.Text, " ", 2)
 				ps.Props = strings.Split(strings.TrimPrefix(sp[0], "@"), ",")
